@@ -64,7 +64,7 @@ example : let s := run { mode := .et, async := true, rbs := 4, cap := 3, udp := 
 
 /-- `willReport` is not a bare predicate on ghosts: whenever it holds on a reachable state with an idle poller and an
     open conn, the model's report step (readable flag, no writable flag) IS enabled — the model never blocks the report
-    the kernel owes. (`reportOk` does not read `edge`: the model also admits spurious reports, i.e. more behaviours than
+    the kernel owes. (`reportOk` does not read `edge`: the model also allows spurious reports, i.e. more behaviours than
     the kernel has, which only strengthens the safety theorems.) -/
 theorem c02_report_enabled (g : Cfg) (as : List Act) :
     let s := run g init as
